@@ -111,8 +111,12 @@ fn flow<C: Ciphersuite, L: Lab<C>>(lab: &mut L, p: &Params) {
     }
     lab.leave();
 
-    // the RFC's commitment list: sorted ascending by identifier (as integers)
-    let list: spec::CommitmentList<C> = sess.signers.iter().map(|id| (id.to_scalar(), sess.commitments[id].hiding().value(), sess.commitments[id].binding().value())).collect();
+    // the RFC's commitment list: sorted ascending by identifier *as integers* — ordered here
+    // independently of the library's `Ord for Identifier`
+    let mut numeric: Vec<Identifier<C>> = sess.signers.clone();
+    numeric.sort_by(|a, b| lab.cmp_scalars(a.to_scalar(), b.to_scalar()));
+    lab.check(numeric == sess.signers, "participants are processed in ascending numeric identifier order");
+    let list: spec::CommitmentList<C> = numeric.iter().map(|id| (id.to_scalar(), sess.commitments[id].hiding().value(), sess.commitments[id].binding().value())).collect();
 
     lab.enter("binding factors vs RFC 4.3/4.4");
     let enc_real = fc::round1::encode_group_commitments(sess.package.signing_commitments());
